@@ -5,3 +5,4 @@ INFO = {'not_decided': ['iteration order of sys.modules / os.listdir (environmen
         'stated_lemmas': ['everything between the entry points and the first use of a set is deterministic (no id(), hash(), time, randomness: '
                           'mechanical scan), assist sorts its proposals, lint enumerates reads in AST order and bindings in region order'],
         'trusted': []}
+import props._all  # noqa
